@@ -277,6 +277,7 @@ func (st *State) addTrace(ev TraceEv) {
 // Engine-wide fresh names
 
 type Engine struct {
+	schemaText  string            // schema.sql of the tree under check (schema obligations)
 	// loops without an invariant in the contract file (typically introduced or moved by a refactoring):
 	autoLoop    map[string][]int  // map-range loop -> indices of the candidate invariants still in use
 	autoCut     map[string]bool   // other loops that ran past the unwinding bound: cut with invariant `true`
